@@ -4,6 +4,8 @@ Model of a read with a deadline (C10), parametric in nothing: every connection t
 that accepts a read deadline follows the same scheme on top of `deadline.Deadline` (Model/Deadline):
 
     Read:  if Done is closed           → timeout            (checked first)
+           else buffered data          → data               (also after Close)
+           else closed                 → end of file
            else wait for (data | Done | close)
 
 packetio.Buffer, dpipe, udp.Conn (= its packetio.Buffer), Bridge endpoints, and — after the repair —
@@ -18,11 +20,12 @@ structure Conn where
   d : D
   queued : Nat
   blocked : Bool          -- a Read is waiting
+  closed : Bool := false  -- Close was called: buffered data stays readable, then end of file; nothing blocks
 deriving Repr, DecidableEq
 
-def Conn.new : Conn := { d := D.new, queued := 0, blocked := false }
+def Conn.new : Conn := { d := D.new, queued := 0, blocked := false, closed := false }
 
-inductive Res | none | blocked | data | timeout
+inductive Res | none | blocked | data | timeout | eof
 deriving Repr, DecidableEq
 
 /-- run every due expiry and its callback (possibly several stale ones) -/
@@ -42,18 +45,24 @@ inductive Op
   | arrive
   | read
   | advance (dt : Nat)
+  | close
 deriving Repr, DecidableEq
 
 def step (c : Conn) : Op → Conn × Res
   | .setDeadline t => ({ c with d := settle (c.d.set t) 4 }).release
   | .arrive =>
-    if c.blocked then ({ c with blocked := false }, .data)        -- handed to the waiting Read
+    if c.closed then (c, .none)                                    -- a write to a closed connection is refused
+    else if c.blocked then ({ c with blocked := false }, .data)   -- handed to the waiting Read
     else ({ c with queued := c.queued + 1 }, .none)
   | .read =>
     if c.blocked then (c, .blocked)                                -- one Read at a time in this harness
     else if c.d.doneClosed then (c, .timeout)                      -- the deadline has passed: timeout first
     else if c.queued > 0 then ({ c with queued := c.queued - 1 }, .data)
+    else if c.closed then (c, .eof)
     else ({ c with blocked := true }, .blocked)
   | .advance dt => ({ c with d := settle (c.d.advance dt) 4 }).release
+  | .close =>
+    -- Close wakes a blocked Read (nothing is buffered then): end of file
+    if c.blocked then ({ c with closed := true, blocked := false }, .eof) else ({ c with closed := true }, .none)
 
 end TV.ReadDeadline
